@@ -1046,7 +1046,10 @@ def evaluate__parse_ietf_date(self: XPathFunction, context: ta.ContextType = Non
                 if abs(seconds) > 14 * 3600:
                     raise self.error('FORG0010')
             if day_offset:
-                dt = dt + timedelta(seconds=86400)
+                try:
+                    dt = dt + timedelta(seconds=86400)
+                except OverflowError as err:
+                    raise self.error('FODT0001', err) from None
 
             return DateTime.fromdatetime(dt)
     else:
